@@ -4,6 +4,7 @@ CONSTANTS
   MaxSpurious = 0
   FORWARD_WAKER = TRUE
   READY_DRAINS = TRUE
+  FILTER_MODE = "none"
   MODE = "frame"
   MaxTok = 4
   MaxPairTok = 2
